@@ -60,6 +60,24 @@ Section AListFacts.
         * apply IH.
   Qed.
 
+  Lemma adel_aset_same : forall m k v, adel k (aset k v m) = adel k m.
+  Proof.
+    induction m as [|[k' v'] r IH]; intros k v; cbn.
+    - now rewrite String.eqb_refl.
+    - destruct (String.eqb k k') eqn:E; cbn; rewrite ?String.eqb_refl, ?E; [reflexivity|]. now rewrite IH.
+  Qed.
+
+  Lemma adel_aset_other : forall m k k' v, k <> k' -> adel k (aset k' v m) = aset k' v (adel k m).
+  Proof.
+    induction m as [|[k0 v0] r IH]; intros k k' v Hne; cbn.
+    - destruct (String.eqb_spec k k'); [congruence|reflexivity].
+    - destruct (String.eqb_spec k' k0) as [->|Hk]; cbn.
+      + destruct (String.eqb_spec k k0); [congruence|]. cbn. now rewrite String.eqb_refl.
+      + destruct (String.eqb_spec k k0) as [->|Hk0].
+        * now apply IH.
+        * cbn. destruct (String.eqb_spec k' k0); [congruence|]. now rewrite IH.
+  Qed.
+
   Lemma aset_not_nil : forall m k v, aset k v m <> [].
   Proof. intros [|[k' v'] r] k v; cbn; [discriminate|]. destruct (String.eqb k k'); discriminate. Qed.
 End AListFacts.
@@ -545,119 +563,121 @@ Proof. intros s t [H1 H2]; split; intros; symmetry; auto. Qed.
 Lemma st_equiv_trans : forall s t r, st_equiv s t -> st_equiv t r -> st_equiv s r.
 Proof. intros s t r [H1 H2] [H3 H4]; split; intros; etransitivity; eauto. Qed.
 
-Definition rec_step (sg : bool) (eq : pg -> pg -> bool) (cfg : config) (cl : list obj) (p : pod) (s : state) : state :=
-  fst (reconcile_with sg eq cfg cl p s).
+Definition rec_step (af pf sg : bool) (eq : pg -> pg -> bool) (cfg : config) (cl : list obj) (p : pod) (s : state) : state :=
+  fst (reconcile_with af pf sg eq cfg cl p s).
 
-Lemma rec_step_none : forall sg eq cfg cl p s,
-    full_md cfg cl p (get_asg (p_name p) s) = None -> reconcile_with sg eq cfg cl p s = (s, 0%Z).
-Proof. intros sg eq cfg cl p s H. unfold reconcile_with. now rewrite H. Qed.
+Lemma rec_step_none : forall af pf sg eq cfg cl p s,
+    full_md_with af cfg cl p (get_asg (p_name p) s) = None -> reconcile_with af pf sg eq cfg cl p s = (s, 0%Z).
+Proof. intros af pf sg eq cfg cl p s H. unfold reconcile_with. now rewrite H. Qed.
 
-Lemma rec_step_some : forall sg eq cfg cl p s m,
-    full_md cfg cl p (get_asg (p_name p) s) = Some m ->
-    (forall n, get_pg n (rec_step sg eq cfg cl p s) =
+Lemma rec_step_some : forall af pf sg eq cfg cl p s m,
+    full_md_with af cfg cl p (get_asg (p_name p) s) = Some m ->
+    (forall n, get_pg n (rec_step af pf sg eq cfg cl p s) =
                if String.eqb n (m_name m)
                then Some (fst (apply_slot_with sg eq cfg m (get_pg (m_name m) s)))
                else get_pg n s)
-    /\ (forall k, get_asg k (rec_step sg eq cfg cl p s) =
+    /\ (forall k, get_asg k (rec_step af pf sg eq cfg cl p s) =
                   if String.eqb k (p_name p) then Some (m_name m) else get_asg k s)
-    /\ snd (reconcile_with sg eq cfg cl p s) =
+    /\ snd (reconcile_with af pf sg eq cfg cl p s) =
        (snd (apply_slot_with sg eq cfg m (get_pg (m_name m) s))
-        + (if needs_patch m p (get_asg (p_name p) s) then 1 else 0))%Z.
+        + (if needs_patch_with pf m p (get_asg (p_name p) s) then 1 else 0))%Z.
 Proof.
-  intros sg eq cfg cl p s m H. unfold rec_step, reconcile_with. rewrite H.
+  intros af pf sg eq cfg cl p s m H. unfold rec_step, reconcile_with. rewrite H.
   cbn [fst snd apply_to_cluster_with st_pgs st_asg]. repeat split.
   - intros n. unfold get_pg at 1. cbn [st_pgs]. apply lookup_aset.
   - intros k. unfold get_asg at 1. cbn [st_asg]. apply lookup_aset.
 Qed.
 
-Lemma rec_step_resp : forall sg eq cfg cl p s t,
-    st_equiv s t -> st_equiv (rec_step sg eq cfg cl p s) (rec_step sg eq cfg cl p t).
+Lemma rec_step_resp : forall af pf sg eq cfg cl p s t,
+    st_equiv s t -> st_equiv (rec_step af pf sg eq cfg cl p s) (rec_step af pf sg eq cfg cl p t).
 Proof.
-  intros sg eq cfg cl p s t [Hp Ha].
-  destruct (full_md cfg cl p (get_asg (p_name p) s)) as [m|] eqn:E.
-  - assert (full_md cfg cl p (get_asg (p_name p) t) = Some m) as E' by now rewrite <- Ha.
-    destruct (rec_step_some sg eq cfg cl p s m E) as [P1 [A1 _]].
-    destruct (rec_step_some sg eq cfg cl p t m E') as [P2 [A2 _]].
+  intros af pf sg eq cfg cl p s t [Hp Ha].
+  destruct (full_md_with af cfg cl p (get_asg (p_name p) s)) as [m|] eqn:E.
+  - assert (full_md_with af cfg cl p (get_asg (p_name p) t) = Some m) as E' by now rewrite <- Ha.
+    destruct (rec_step_some af pf sg eq cfg cl p s m E) as [P1 [A1 _]].
+    destruct (rec_step_some af pf sg eq cfg cl p t m E') as [P2 [A2 _]].
     split; intros x; rewrite ?P1, ?P2, ?A1, ?A2, ?Hp, ?Ha; reflexivity.
-  - assert (full_md cfg cl p (get_asg (p_name p) t) = None) as E' by now rewrite <- Ha.
-    unfold rec_step. rewrite (rec_step_none _ _ _ _ _ _ E), (rec_step_none _ _ _ _ _ _ E'). now split.
+  - assert (full_md_with af cfg cl p (get_asg (p_name p) t) = None) as E' by now rewrite <- Ha.
+    unfold rec_step. rewrite (rec_step_none _ _ _ _ _ _ _ _ E), (rec_step_none _ _ _ _ _ _ _ _ E'). now split.
 Qed.
 
-Lemma rec_writes_resp : forall sg eq cfg cl p s t,
-    st_equiv s t -> snd (reconcile_with sg eq cfg cl p s) = snd (reconcile_with sg eq cfg cl p t).
+Lemma rec_writes_resp : forall af pf sg eq cfg cl p s t,
+    st_equiv s t -> snd (reconcile_with af pf sg eq cfg cl p s) = snd (reconcile_with af pf sg eq cfg cl p t).
 Proof.
-  intros sg eq cfg cl p s t [Hp Ha].
-  destruct (full_md cfg cl p (get_asg (p_name p) s)) as [m|] eqn:E.
-  - assert (full_md cfg cl p (get_asg (p_name p) t) = Some m) as E' by now rewrite <- Ha.
-    destruct (rec_step_some sg eq cfg cl p s m E) as [_ [_ W1]].
-    destruct (rec_step_some sg eq cfg cl p t m E') as [_ [_ W2]].
+  intros af pf sg eq cfg cl p s t [Hp Ha].
+  destruct (full_md_with af cfg cl p (get_asg (p_name p) s)) as [m|] eqn:E.
+  - assert (full_md_with af cfg cl p (get_asg (p_name p) t) = Some m) as E' by now rewrite <- Ha.
+    destruct (rec_step_some af pf sg eq cfg cl p s m E) as [_ [_ W1]].
+    destruct (rec_step_some af pf sg eq cfg cl p t m E') as [_ [_ W2]].
     now rewrite W1, W2, Hp, Ha.
-  - assert (full_md cfg cl p (get_asg (p_name p) t) = None) as E' by now rewrite <- Ha.
-    now rewrite (rec_step_none _ _ _ _ _ _ E), (rec_step_none _ _ _ _ _ _ E').
+  - assert (full_md_with af cfg cl p (get_asg (p_name p) t) = None) as E' by now rewrite <- Ha.
+    now rewrite (rec_step_none _ _ _ _ _ _ _ _ E), (rec_step_none _ _ _ _ _ _ _ _ E').
 Qed.
 
 (** after its own reconcile a pod's metadata is unchanged, or the pod is skipped from then on *)
-Definition settles (cfg : config) (cl : list obj) (p : pod) : Prop :=
-  forall a m, full_md cfg cl p a = Some m ->
-              full_md cfg cl p (Some (m_name m)) = Some m \/ full_md cfg cl p (Some (m_name m)) = None.
+Definition settles_with (af : bool) (cfg : config) (cl : list obj) (p : pod) : Prop :=
+  forall a m, full_md_with af cfg cl p a = Some m ->
+              full_md_with af cfg cl p (Some (m_name m)) = Some m \/ full_md_with af cfg cl p (Some (m_name m)) = None.
+Definition settles := settles_with annot_fix.
 
-Lemma rec_step_idem : forall sg eq cfg cl p s,
-    settles cfg cl p ->
-    st_equiv (rec_step sg eq cfg cl p (rec_step sg eq cfg cl p s)) (rec_step sg eq cfg cl p s).
+Lemma rec_step_idem : forall af pf sg eq cfg cl p s,
+    settles_with af cfg cl p ->
+    st_equiv (rec_step af pf sg eq cfg cl p (rec_step af pf sg eq cfg cl p s)) (rec_step af pf sg eq cfg cl p s).
 Proof.
-  intros sg eq cfg cl p s Hset.
-  destruct (full_md cfg cl p (get_asg (p_name p) s)) as [m|] eqn:E.
-  - destruct (rec_step_some sg eq cfg cl p s m E) as [P1 [A1 _]].
-    set (s1 := rec_step sg eq cfg cl p s) in *.
+  intros af pf sg eq cfg cl p s Hset.
+  destruct (full_md_with af cfg cl p (get_asg (p_name p) s)) as [m|] eqn:E.
+  - destruct (rec_step_some af pf sg eq cfg cl p s m E) as [P1 [A1 _]].
+    set (s1 := rec_step af pf sg eq cfg cl p s) in *.
     assert (get_asg (p_name p) s1 = Some (m_name m)) as Ha1 by now rewrite A1, String.eqb_refl.
     destruct (Hset _ _ E) as [E2|E2].
-    + rewrite <- Ha1 in E2. destruct (rec_step_some sg eq cfg cl p s1 m E2) as [P2 [A2 _]].
+    + rewrite <- Ha1 in E2. destruct (rec_step_some af pf sg eq cfg cl p s1 m E2) as [P2 [A2 _]].
       split; intros x.
       * rewrite P2. destruct (String.eqb_spec x (m_name m)) as [->|Hne]; [|reflexivity].
         rewrite !P1, String.eqb_refl. now rewrite apply_slot_idem_state.
       * rewrite A2. destruct (String.eqb_spec x (p_name p)) as [->|Hne]; [|reflexivity].
         now rewrite Ha1.
-    + rewrite <- Ha1 in E2. unfold rec_step at 1. rewrite (rec_step_none _ _ _ _ _ _ E2). apply st_equiv_refl.
-  - unfold rec_step. rewrite (rec_step_none _ _ _ _ _ _ E). cbn [fst].
-    rewrite (rec_step_none _ _ _ _ _ _ E). apply st_equiv_refl.
+    + rewrite <- Ha1 in E2. unfold rec_step at 1. rewrite (rec_step_none _ _ _ _ _ _ _ _ E2). apply st_equiv_refl.
+  - unfold rec_step. rewrite (rec_step_none _ _ _ _ _ _ _ _ E). cbn [fst].
+    rewrite (rec_step_none _ _ _ _ _ _ _ _ E). apply st_equiv_refl.
 Qed.
 
 (** pods whose groups have the same name carry the same metadata *)
-Definition agree_on_names (cfg : config) (cl : list obj) (p q : pod) : Prop :=
-  forall a b m m', full_md cfg cl p a = Some m -> full_md cfg cl q b = Some m' ->
+Definition agree_on_names_with (af : bool) (cfg : config) (cl : list obj) (p q : pod) : Prop :=
+  forall a b m m', full_md_with af cfg cl p a = Some m -> full_md_with af cfg cl q b = Some m' ->
                    m_name m = m_name m' -> m = m'.
+Definition agree_on_names := agree_on_names_with annot_fix.
 
-Lemma rec_step_comm : forall sg eq cfg cl p q s,
-    (p_name p = p_name q -> p = q) -> agree_on_names cfg cl p q ->
-    st_equiv (rec_step sg eq cfg cl p (rec_step sg eq cfg cl q s)) (rec_step sg eq cfg cl q (rec_step sg eq cfg cl p s)).
+Lemma rec_step_comm : forall af pf sg eq cfg cl p q s,
+    (p_name p = p_name q -> p = q) -> agree_on_names_with af cfg cl p q ->
+    st_equiv (rec_step af pf sg eq cfg cl p (rec_step af pf sg eq cfg cl q s)) (rec_step af pf sg eq cfg cl q (rec_step af pf sg eq cfg cl p s)).
 Proof.
-  intros sg eq cfg cl p q s Hinj Hagree.
+  intros af pf sg eq cfg cl p q s Hinj Hagree.
   destruct (String.eqb_spec (p_name p) (p_name q)) as [Heq|Hne].
   { rewrite (Hinj Heq). apply st_equiv_refl. }
-  destruct (full_md cfg cl q (get_asg (p_name q) s)) as [mq|] eqn:Eq.
-  2:{ assert (rec_step sg eq cfg cl q s = s) as Hq by (unfold rec_step; now rewrite (rec_step_none _ _ _ _ _ _ Eq)).
+  destruct (full_md_with af cfg cl q (get_asg (p_name q) s)) as [mq|] eqn:Eq.
+  2:{ assert (rec_step af pf sg eq cfg cl q s = s) as Hq by (unfold rec_step; now rewrite (rec_step_none _ _ _ _ _ _ _ _ Eq)).
       rewrite Hq.
-      destruct (full_md cfg cl p (get_asg (p_name p) s)) as [mp|] eqn:Ep.
-      - destruct (rec_step_some sg eq cfg cl p s mp Ep) as [_ [A1 _]].
-        assert (full_md cfg cl q (get_asg (p_name q) (rec_step sg eq cfg cl p s)) = None) as Eq'.
+      destruct (full_md_with af cfg cl p (get_asg (p_name p) s)) as [mp|] eqn:Ep.
+      - destruct (rec_step_some af pf sg eq cfg cl p s mp Ep) as [_ [A1 _]].
+        assert (full_md_with af cfg cl q (get_asg (p_name q) (rec_step af pf sg eq cfg cl p s)) = None) as Eq'.
         { rewrite A1. destruct (String.eqb_spec (p_name q) (p_name p)); [congruence|assumption]. }
-        unfold rec_step at 2. rewrite (rec_step_none _ _ _ _ _ _ Eq'). apply st_equiv_refl.
-      - assert (rec_step sg eq cfg cl p s = s) as Hp by (unfold rec_step; now rewrite (rec_step_none _ _ _ _ _ _ Ep)).
+        unfold rec_step at 2. rewrite (rec_step_none _ _ _ _ _ _ _ _ Eq'). apply st_equiv_refl.
+      - assert (rec_step af pf sg eq cfg cl p s = s) as Hp by (unfold rec_step; now rewrite (rec_step_none _ _ _ _ _ _ _ _ Ep)).
         rewrite Hp, Hq. apply st_equiv_refl. }
-  destruct (rec_step_some sg eq cfg cl q s mq Eq) as [Pq [Aq _]].
-  destruct (full_md cfg cl p (get_asg (p_name p) s)) as [mp|] eqn:Ep.
-  2:{ assert (rec_step sg eq cfg cl p s = s) as Hp by (unfold rec_step; now rewrite (rec_step_none _ _ _ _ _ _ Ep)).
+  destruct (rec_step_some af pf sg eq cfg cl q s mq Eq) as [Pq [Aq _]].
+  destruct (full_md_with af cfg cl p (get_asg (p_name p) s)) as [mp|] eqn:Ep.
+  2:{ assert (rec_step af pf sg eq cfg cl p s = s) as Hp by (unfold rec_step; now rewrite (rec_step_none _ _ _ _ _ _ _ _ Ep)).
       rewrite Hp.
-      assert (full_md cfg cl p (get_asg (p_name p) (rec_step sg eq cfg cl q s)) = None) as Ep'.
+      assert (full_md_with af cfg cl p (get_asg (p_name p) (rec_step af pf sg eq cfg cl q s)) = None) as Ep'.
       { rewrite Aq. destruct (String.eqb_spec (p_name p) (p_name q)); [congruence|assumption]. }
-      unfold rec_step at 1. rewrite (rec_step_none _ _ _ _ _ _ Ep'). apply st_equiv_refl. }
-  destruct (rec_step_some sg eq cfg cl p s mp Ep) as [Pp [Ap _]].
-  assert (full_md cfg cl p (get_asg (p_name p) (rec_step sg eq cfg cl q s)) = Some mp) as Ep'.
+      unfold rec_step at 1. rewrite (rec_step_none _ _ _ _ _ _ _ _ Ep'). apply st_equiv_refl. }
+  destruct (rec_step_some af pf sg eq cfg cl p s mp Ep) as [Pp [Ap _]].
+  assert (full_md_with af cfg cl p (get_asg (p_name p) (rec_step af pf sg eq cfg cl q s)) = Some mp) as Ep'.
   { rewrite Aq. destruct (String.eqb_spec (p_name p) (p_name q)); [congruence|assumption]. }
-  assert (full_md cfg cl q (get_asg (p_name q) (rec_step sg eq cfg cl p s)) = Some mq) as Eq'.
+  assert (full_md_with af cfg cl q (get_asg (p_name q) (rec_step af pf sg eq cfg cl p s)) = Some mq) as Eq'.
   { rewrite Ap. destruct (String.eqb_spec (p_name q) (p_name p)); [congruence|assumption]. }
-  destruct (rec_step_some sg eq cfg cl p _ mp Ep') as [Ppq [Apq _]].
-  destruct (rec_step_some sg eq cfg cl q _ mq Eq') as [Pqp [Aqp _]].
+  destruct (rec_step_some af pf sg eq cfg cl p _ mp Ep') as [Ppq [Apq _]].
+  destruct (rec_step_some af pf sg eq cfg cl q _ mq Eq') as [Pqp [Aqp _]].
   split; intros x.
   - rewrite Ppq, Pqp, !Pq, !Pp.
     destruct (String.eqb_spec (m_name mp) (m_name mq)) as [Hn|Hn].
@@ -673,27 +693,27 @@ Proof.
 Qed.
 
 (** a set of pods whose reconciles commute *)
-Record coherent (cfg : config) (cl : list obj) (ps : list pod) : Prop := {
-  coh_names : forall p q, In p ps -> In q ps -> p_name p = p_name q -> p = q;
-  coh_settles : forall p, In p ps -> settles cfg cl p;
-  coh_agree : forall p q, In p ps -> In q ps -> agree_on_names cfg cl p q
+Record coherent_with (af : bool) (cfg : config) (cl : list obj) (ps : list pod) : Prop := {
+  cohw_names : forall p q, In p ps -> In q ps -> p_name p = p_name q -> p = q;
+  cohw_settles : forall p, In p ps -> settles_with af cfg cl p;
+  cohw_agree : forall p q, In p ps -> In q ps -> agree_on_names_with af cfg cl p q
 }.
 
-Lemma run_reconciles_is_runs : forall sg eq cfg cl es s,
-    run_with sg eq cfg cl (map EvReconcile es) s = runs (rec_step sg eq cfg cl) es s.
+Lemma run_reconciles_is_runs : forall af pf sg eq cfg cl es s,
+    run_with af pf sg eq cfg cl (map EvReconcile es) s = runs (rec_step af pf sg eq cfg cl) es s.
 Proof.
-  intros sg eq cfg cl es. induction es as [|p es IH]; intros s; [reflexivity|].
+  intros af pf sg eq cfg cl es. induction es as [|p es IH]; intros s; [reflexivity|].
   cbn. unfold run_with in IH. now rewrite IH.
 Qed.
 
-Theorem order_independent_coherent : forall sg eq cfg cl ps es1 es2 s,
-    coherent cfg cl ps ->
+Theorem order_independent_coherent_with : forall af pf sg eq cfg cl ps es1 es2 s,
+    coherent_with af cfg cl ps ->
     incl es1 ps -> incl es2 ps -> incl es1 es2 -> incl es2 es1 ->
-    st_equiv (run_with sg eq cfg cl (map EvReconcile es1) s) (run_with sg eq cfg cl (map EvReconcile es2) s).
+    st_equiv (run_with af pf sg eq cfg cl (map EvReconcile es1) s) (run_with af pf sg eq cfg cl (map EvReconcile es2) s).
 Proof.
-  intros sg eq cfg cl ps es1 es2 s [Hn Hs Ha] I1 I2 I12 I21.
+  intros af pf sg eq cfg cl ps es1 es2 s [Hn Hs Ha] I1 I2 I12 I21.
   rewrite !run_reconciles_is_runs.
-  apply (runs_same_set st_equiv (rec_step sg eq cfg cl) (fun p => In p ps)).
+  apply (runs_same_set st_equiv (rec_step af pf sg eq cfg cl) (fun p => In p ps)).
   - apply st_equiv_refl.
   - apply st_equiv_sym.
   - apply st_equiv_trans.
@@ -828,12 +848,12 @@ Section SameTemplate.
   Lemma calc_labels_same : forall g, calc_labels g p = calc_labels g q.
   Proof. intros g. unfold calc_labels. rewrite (Hl user_key) by (cbn; tauto). reflexivity. Qed.
 
-  Lemma calc_annots_same : forall g, calc_annots g p = calc_annots g q.
-  Proof. intros g. unfold calc_annots. destruct T as [_ [_ [-> _]]]. reflexivity. Qed.
+  Lemma calc_annots_same : forall af g, calc_annots_with af g p = calc_annots_with af g q.
+  Proof. intros af g. unfold calc_annots_with. destruct T as [_ [_ [-> _]]]. reflexivity. Qed.
 
-  Lemma default_md_same : forall g os, default_md cfg g p os = default_md cfg g q os.
+  Lemma default_md_same : forall af g os, default_md_with af cfg g p os = default_md_with af cfg g q os.
   Proof.
-    intros g os. unfold default_md.
+    intros af g os. unfold default_md_with.
     now rewrite calc_labels_same, calc_annots_same, !calc_prio_same, !calc_preempt_same, calc_queue_same.
   Qed.
 
@@ -849,29 +869,60 @@ Section SameTemplate.
 End SameTemplate.
 
 (** (1) siblings: same top owner, same template-derived fields => the very same metadata *)
+Theorem siblings_same_group_with : forall af cfg cl p q a b g os,
+    same_template cfg p q ->
+    grouping cfg cl p a = GOk PDefault g os false ->
+    full_md_with af cfg cl q b = full_md_with af cfg cl p a
+    /\ exists m, full_md_with af cfg cl p a = Some m
+                 /\ m_name m = pg_name (o_name g) (o_uid g) /\ m_min m = 1%Z /\ m_subgroups m = [].
+Proof.
+  intros af cfg cl p q a b g os T G.
+  pose proof (grouping_indep cfg cl p q a b _ _ _ (proj1 T) G) as G'.
+  pose proof (grouping_false_has_owners _ _ _ _ _ _ _ G) as Hp.
+  pose proof (grouping_false_has_owners _ _ _ _ _ _ _ G') as Hq.
+  unfold full_md_with, reconcile_md_with. rewrite G, G', !not_orphan_with_owners by assumption.
+  cbn [leaf_md_with]. split.
+  - rewrite (default_md_same cfg p q T), (add_node_pool_label_same cfg p q T). reflexivity.
+  - eexists. split; [reflexivity|].
+    unfold add_node_pool_label. destruct (String.eqb (c_nodepool_key cfg) ""); cbn; auto.
+Qed.
+
 Theorem siblings_same_group : forall cfg cl p q a b g os,
     same_template cfg p q ->
     grouping cfg cl p a = GOk PDefault g os false ->
     full_md cfg cl q b = full_md cfg cl p a
     /\ exists m, full_md cfg cl p a = Some m
                  /\ m_name m = pg_name (o_name g) (o_uid g) /\ m_min m = 1%Z /\ m_subgroups m = [].
-Proof.
-  intros cfg cl p q a b g os T G.
-  pose proof (grouping_indep cfg cl p q a b _ _ _ (proj1 T) G) as G'.
-  pose proof (grouping_false_has_owners _ _ _ _ _ _ _ G) as Hp.
-  pose proof (grouping_false_has_owners _ _ _ _ _ _ _ G') as Hq.
-  unfold full_md, reconcile_md. rewrite G, G', !not_orphan_with_owners by assumption.
-  cbn [leaf_md]. split.
-  - rewrite (default_md_same cfg p q T), (add_node_pool_label_same cfg p q T). reflexivity.
-  - eexists. split; [reflexivity|].
-    unfold add_node_pool_label. destruct (String.eqb (c_nodepool_key cfg) ""); cbn; auto.
-Qed.
+Proof. exact (siblings_same_group_with annot_fix). Qed.
 
 (** per-pod kinds: one group per pod, named after the pod, all other fields shared *)
 Definition same_but_identity (m m' : metadata) : Prop :=
   m_labels m = m_labels m' /\ m_annots m = m_annots m' /\ m_prio m = m_prio m'
   /\ m_preempt m = m_preempt m' /\ m_queue m = m_queue m' /\ m_min m = m_min m'
   /\ m_subgroups m = m_subgroups m' /\ m_topo m = m_topo m'.
+
+Theorem per_pod_kinds_with : forall af cfg cl p q a b pl g os,
+    same_template cfg p q -> pl = PDeployment \/ pl = PJob ->
+    grouping cfg cl p a = GOk pl g os false ->
+    exists m m', full_md_with af cfg cl p a = Some m /\ full_md_with af cfg cl q b = Some m'
+                 /\ m_name m = pg_name (p_name p) (match pl with PDeployment => p_uid p | _ => o_uid g end)
+                 /\ m_name m' = pg_name (p_name q) (match pl with PDeployment => p_uid q | _ => o_uid g end)
+                 /\ same_but_identity m m'.
+Proof.
+  intros af cfg cl p q a b pl g os T Hpl G.
+  pose proof (grouping_indep cfg cl p q a b _ _ _ (proj1 T) G) as G'.
+  pose proof (grouping_false_has_owners _ _ _ _ _ _ _ G) as Hp.
+  pose proof (grouping_false_has_owners _ _ _ _ _ _ _ G') as Hq.
+  unfold full_md_with, reconcile_md_with. rewrite G, G', !not_orphan_with_owners by assumption.
+  destruct Hpl as [-> | ->]; cbn [leaf_md_with]; do 2 eexists; (split; [reflexivity|]); (split; [reflexivity|]).
+  - rewrite <- (add_node_pool_label_same cfg p q T).
+    unfold deployment_md_with, same_but_identity.
+    rewrite (default_md_same cfg p q T), (calc_prio_same cfg p q T).
+    unfold add_node_pool_label. destruct (String.eqb (c_nodepool_key cfg) ""); cbn; repeat split; reflexivity.
+  - rewrite <- (add_node_pool_label_same cfg p q T).
+    unfold job_md_with, with_name, same_but_identity. rewrite (default_md_same cfg p q T).
+    unfold add_node_pool_label. destruct (String.eqb (c_nodepool_key cfg) ""); cbn; repeat split; reflexivity.
+Qed.
 
 Theorem per_pod_kinds : forall cfg cl p q a b pl g os,
     same_template cfg p q -> pl = PDeployment \/ pl = PJob ->
@@ -880,30 +931,18 @@ Theorem per_pod_kinds : forall cfg cl p q a b pl g os,
                  /\ m_name m = pg_name (p_name p) (match pl with PDeployment => p_uid p | _ => o_uid g end)
                  /\ m_name m' = pg_name (p_name q) (match pl with PDeployment => p_uid q | _ => o_uid g end)
                  /\ same_but_identity m m'.
-Proof.
-  intros cfg cl p q a b pl g os T Hpl G.
-  pose proof (grouping_indep cfg cl p q a b _ _ _ (proj1 T) G) as G'.
-  pose proof (grouping_false_has_owners _ _ _ _ _ _ _ G) as Hp.
-  pose proof (grouping_false_has_owners _ _ _ _ _ _ _ G') as Hq.
-  unfold full_md, reconcile_md. rewrite G, G', !not_orphan_with_owners by assumption.
-  destruct Hpl as [-> | ->]; cbn [leaf_md]; do 2 eexists; (split; [reflexivity|]); (split; [reflexivity|]).
-  - rewrite <- (add_node_pool_label_same cfg p q T).
-    unfold deployment_md, same_but_identity.
-    rewrite (default_md_same cfg p q T), (calc_prio_same cfg p q T).
-    unfold add_node_pool_label. destruct (String.eqb (c_nodepool_key cfg) ""); cbn; repeat split; reflexivity.
-  - rewrite <- (add_node_pool_label_same cfg p q T).
-    unfold job_md, with_name, same_but_identity. rewrite (default_md_same cfg p q T).
-    unfold add_node_pool_label. destruct (String.eqb (c_nodepool_key cfg) ""); cbn; repeat split; reflexivity.
-Qed.
+Proof. exact (per_pod_kinds_with annot_fix). Qed.
 
 (** * When a pod settles *)
-Lemma full_md_indep : forall cfg cl p a a' pl g os,
-    grouping cfg cl p a = GOk pl g os false -> full_md cfg cl p a' = full_md cfg cl p a.
+
+(** ** in every version: pods grouped by an owner object, and pods without owner *)
+Lemma full_md_indep : forall af cfg cl p a a' pl g os,
+    grouping cfg cl p a = GOk pl g os false -> full_md_with af cfg cl p a' = full_md_with af cfg cl p a.
 Proof.
-  intros cfg cl p a a' pl g os G.
+  intros af cfg cl p a a' pl g os G.
   pose proof (grouping_indep cfg cl p p a a' _ _ _ eq_refl G) as G'.
   pose proof (grouping_false_has_owners _ _ _ _ _ _ _ G) as Hp.
-  unfold full_md, reconcile_md. now rewrite G, G', !not_orphan_with_owners.
+  unfold full_md_with, reconcile_md_with. now rewrite G, G', !not_orphan_with_owners.
 Qed.
 
 Lemma bare_pod_orphan : forall p n, p_owners p = [] -> is_orphan p (Some n) = true.
@@ -911,33 +950,246 @@ Proof.
   intros p n H. unfold is_orphan, cur_annots. now rewrite lookup_aset_same, H.
 Qed.
 
-Lemma settles_bare : forall cfg cl p, p_owners p = [] -> settles cfg cl p.
+Lemma settles_bare : forall af cfg cl p, p_owners p = [] -> settles_with af cfg cl p.
 Proof.
-  intros cfg cl p H a m _. right. unfold full_md. now rewrite bare_pod_orphan.
+  intros af cfg cl p H a m _. right. unfold full_md_with. now rewrite bare_pod_orphan.
 Qed.
 
-Lemma settles_not_pod_grouped : forall cfg cl p a pl g os,
-    grouping cfg cl p a = GOk pl g os false -> settles cfg cl p.
+Lemma settles_not_pod_grouped : forall af cfg cl p a pl g os,
+    grouping cfg cl p a = GOk pl g os false -> settles_with af cfg cl p.
 Proof.
-  intros cfg cl p a pl g os G a' m H. left.
-  rewrite (full_md_indep _ _ _ _ (Some (m_name m)) _ _ _ G).
-  now rewrite <- (full_md_indep _ _ _ _ a' _ _ _ G).
+  intros af cfg cl p a pl g os G a' m H. left.
+  rewrite (full_md_indep _ _ _ _ _ (Some (m_name m)) _ _ _ G).
+  now rewrite <- (full_md_indep _ _ _ _ _ a' _ _ _ G).
 Qed.
 
-Lemma settles_cases : forall cfg cl p,
-    (p_owners p = [] \/ exists a pl g os, grouping cfg cl p a = GOk pl g os false) -> settles cfg cl p.
+Lemma settles_cases : forall af cfg cl p,
+    (p_owners p = [] \/ exists a pl g os, grouping cfg cl p a = GOk pl g os false) -> settles_with af cfg cl p.
 Proof.
-  intros cfg cl p [H|[a [pl [g [os H]]]]]; [now apply settles_bare|eapply settles_not_pod_grouped; eauto].
+  intros af cfg cl p [H|[a [pl [g [os H]]]]]; [now apply settles_bare|eapply settles_not_pod_grouped; eauto].
+Qed.
+
+(** ** since 8227120: every pod. The pod-group annotation of the pod reaches the metadata only
+    through the annotations of the grouping object, and CalcPodGroupAnnotations deletes that key. *)
+
+(** an object without its pod-group-name annotation *)
+Definition strip_obj (o : obj) : obj :=
+  {| o_gvk := o_gvk o; o_name := o_name o; o_uid := o_uid o; o_labels := o_labels o;
+     o_annots := adel pg_annotation_key (o_annots o); o_owners := o_owners o; o_tom := o_tom o |}.
+
+(** two objects that differ in that annotation at most *)
+Definition obj_sim (o o' : obj) : Prop := strip_obj o = strip_obj o'.
+
+Lemma obj_sim_refl : forall o, obj_sim o o.
+Proof. reflexivity. Qed.
+
+Lemma obj_sim_gvk : forall o o', obj_sim o o' -> o_gvk o = o_gvk o'.
+Proof. intros o o' H. exact (f_equal o_gvk H). Qed.
+
+Lemma pod_obj_sim : forall p a a', obj_sim (pod_obj p a) (pod_obj p a').
+Proof.
+  intros p a a'. unfold obj_sim, strip_obj, pod_obj. cbn. f_equal.
+  assert (forall x, adel pg_annotation_key (cur_annots p x) = adel pg_annotation_key (p_annots p)) as H.
+  { intros [n|]; [apply adel_aset_same|reflexivity]. }
+  now rewrite !H.
+Qed.
+
+Definition prop_loop (up l t : smap) : smap :=
+  fold_left (fun t kv => match lookup (fst kv) t with
+                         | Some _ => t
+                         | None => match lookup (fst kv) up with
+                                   | Some v => aset (fst kv) v t
+                                   | None => t
+                                   end
+                         end) l t.
+
+Lemma adel_prop_loop : forall k up l t,
+    adel k (prop_loop up l t) = prop_loop (adel k up) (adel k l) (adel k t).
+Proof.
+  intros k up l. induction l as [|[k0 v0] r IH]; intros t; [reflexivity|].
+  change (prop_loop up ((k0, v0) :: r) t)
+    with (prop_loop up r (match lookup k0 t with
+                          | Some _ => t
+                          | None => match lookup k0 up with Some v => aset k0 v t | None => t end
+                          end)).
+  rewrite IH. cbn [adel]. destruct (String.eqb_spec k k0) as [->|Hne].
+  - f_equal. destruct (lookup k0 t); [reflexivity|]. destruct (lookup k0 up); [apply adel_aset_same|reflexivity].
+  - change (prop_loop (adel k up) ((k0, v0) :: adel k r) (adel k t))
+      with (prop_loop (adel k up) (adel k r)
+                      (match lookup k0 (adel k t) with
+                       | Some _ => adel k t
+                       | None => match lookup k0 (adel k up) with Some v => aset k0 v (adel k t) | None => adel k t end
+                       end)).
+    f_equal. rewrite !lookup_adel.
+    destruct (String.eqb_spec k0 k) as [E|_]; [congruence|].
+    destruct (lookup k0 t); [reflexivity|]. destruct (lookup k0 up); [|reflexivity].
+    now apply adel_aset_other.
+Qed.
+
+Lemma adel_propagate_map : forall k lower upper,
+    adel k (propagate_map lower upper) = propagate_map (adel k lower) (adel k upper).
+Proof. intros k lower upper. exact (adel_prop_loop k upper upper lower). Qed.
+
+Lemma strip_propagate : forall lo up, strip_obj (propagate lo up) = propagate (strip_obj lo) (strip_obj up).
+Proof.
+  intros lo up. unfold strip_obj, propagate. cbn. f_equal. apply adel_propagate_map.
+Qed.
+
+Lemma propagate_sim : forall lo lo' up up',
+    obj_sim lo lo' -> obj_sim up up' -> obj_sim (propagate lo up) (propagate lo' up').
+Proof.
+  intros lo lo' up up' H1 H2. unfold obj_sim in *. now rewrite !strip_propagate, H1, H2.
+Qed.
+
+Definition owners_sim (r r' : owners_res) : Prop :=
+  match r, r' with
+  | OwnersOk t os u, OwnersOk t' os' u' => obj_sim t t' /\ os = os' /\ u = u'
+  | OwnersErr, OwnersErr => True
+  | OwnersOutOfFuel, OwnersOutOfFuel => True
+  | _, _ => False
+  end.
+
+Lemma walk_sim : forall fuel cfg cl podo podo' r last acc,
+    obj_sim podo podo' ->
+    owners_sim (walk fuel cfg cl podo r last acc) (walk fuel cfg cl podo' r last acc).
+Proof.
+  induction fuel as [|f IH]; intros cfg cl podo podo' r last acc H; cbn [walk]; [exact I|].
+  destruct (get_owner cfg cl r) as [o| |].
+  - destruct (o_owners o) as [|r' [|r'' rest]].
+    + repeat split.
+    + now apply IH.
+    + exact I.
+  - destruct last as [l|]; repeat split. exact H.
+  - exact I.
+Qed.
+
+Definition grouping_sim (r r' : grouping_res) : Prop :=
+  match r, r' with
+  | GOk pl g os u, GOk pl' g' os' u' => pl = pl' /\ obj_sim g g' /\ os = os' /\ u = u'
+  | GErr, GErr => True
+  | GOutOfFuel, GOutOfFuel => True
+  | GPanic, GPanic => True
+  | _, _ => False
+  end.
+
+Lemma resolve_sim : forall fuel cl podo podo' pl top top' owners used,
+    obj_sim podo podo' -> obj_sim top top' ->
+    grouping_sim (resolve fuel cl podo pl top owners used) (resolve fuel cl podo' pl top' owners used).
+Proof.
+  induction fuel as [|f IH]; intros cl podo podo' pl top top' owners used Hp Ht.
+  - destruct pl; cbn [resolve]; repeat split; assumption.
+  - destruct pl; cbn [resolve]; try (repeat split; assumption).
+    destruct (Nat.leb (List.length owners) 1).
+    + destruct owners as [|x xs]; [exact I|].
+      change (o_gvk (propagate podo top)) with (o_gvk podo).
+      change (o_gvk (propagate podo' top')) with (o_gvk podo').
+      rewrite (obj_sim_gvk _ _ Hp). apply IH; [assumption|now apply propagate_sim].
+    + destruct (nth_error owners (List.length owners - 2)) as [x|]; [|exact I].
+      destruct (find_obj cl (o_gvk x) (o_name x)) as [y|]; [|exact I].
+      destruct owners as [|x0 xs]; [exact I|].
+      change (o_gvk (propagate y top)) with (o_gvk y).
+      change (o_gvk (propagate y top')) with (o_gvk y).
+      apply IH; [assumption|apply propagate_sim; [apply obj_sim_refl|assumption]].
+Qed.
+
+(** the grouping object of a pod does not depend on the pod-group annotation the pod carries,
+    except for that very annotation on it *)
+Lemma grouping_sim_all : forall cfg cl p a a', grouping_sim (grouping cfg cl p a) (grouping cfg cl p a').
+Proof.
+  intros cfg cl p a a'. unfold grouping, get_pod_owners.
+  pose proof (pod_obj_sim p a a') as Hp.
+  destruct (p_owners p) as [|r rs].
+  - change (o_gvk (pod_obj p a)) with pod_gvk. change (o_gvk (pod_obj p a')) with pod_gvk.
+    now apply resolve_sim.
+  - pose proof (walk_sim (S (List.length cl)) cfg cl _ _ r None [] Hp) as W.
+    destruct (walk _ cfg cl (pod_obj p a) r None []) as [t os u| |];
+      destruct (walk _ cfg cl (pod_obj p a') r None []) as [t' os' u'| |]; cbn in W; try contradiction; try exact I.
+    destruct W as [Ht [<- <-]]. rewrite (obj_sim_gvk _ _ Ht). now apply resolve_sim.
+Qed.
+
+Lemma adel_copy_loop : forall k src l t,
+    adel k (copy_loop src l t) = copy_loop (adel k src) (adel k l) (adel k t).
+Proof.
+  intros k src l. induction l as [|[k0 v0] r IH]; intros t; [reflexivity|].
+  rewrite copy_loop_cons, IH. cbn [fst adel]. destruct (String.eqb_spec k k0) as [->|Hne].
+  - f_equal. destruct (lookup k0 src); [apply adel_aset_same|reflexivity].
+  - rewrite copy_loop_cons. cbn [fst]. f_equal. rewrite lookup_adel.
+    destruct (String.eqb_spec k0 k) as [E|_]; [congruence|].
+    destruct (lookup k0 src); [now apply adel_aset_other|reflexivity].
+Qed.
+
+Lemma adel_copy_into : forall k s t, adel k (copy_into s t) = copy_into (adel k s) (adel k t).
+Proof. intros k s t. rewrite !copy_into_loop. apply adel_copy_loop. Qed.
+
+Lemma annot_or_empty_strip : forall k o,
+    String.eqb k pg_annotation_key = false -> annot_or_empty k (strip_obj o) = annot_or_empty k o.
+Proof.
+  intros k o H. unfold annot_or_empty, strip_obj. cbn [o_annots]. now rewrite lookup_adel, H.
+Qed.
+
+Lemma adel_idem : forall (m : smap) k, adel k (adel k m) = adel k m.
+Proof. intros m k. apply adel_noop. rewrite lookup_adel. now rewrite String.eqb_refl. Qed.
+
+(** the current CalcPodGroupAnnotations does not see the pod-group-name annotation of the top owner *)
+Lemma calc_annots_strip : forall g p, calc_annots g p = calc_annots (strip_obj g) p.
+Proof.
+  intros g p. unfold calc_annots, calc_annots_with, annot_fix, annot_fix_v1, strip_obj. cbn [o_annots o_tom].
+  now rewrite !adel_copy_into, adel_idem.
+Qed.
+
+Lemma default_md_strip : forall cfg g p os,
+    default_md_with annot_fix cfg g p os = default_md_with annot_fix cfg (strip_obj g) p os.
+Proof.
+  intros cfg g p os. unfold default_md_with.
+  change (calc_annots_with annot_fix g p) with (calc_annots g p).
+  change (calc_annots_with annot_fix (strip_obj g) p) with (calc_annots (strip_obj g) p).
+  rewrite <- (calc_annots_strip g p), !annot_or_empty_strip by reflexivity.
+  destruct os; reflexivity.
+Qed.
+
+Lemma leaf_md_sim : forall cfg pl g g' p os,
+    obj_sim g g' -> leaf_md_with annot_fix cfg pl g p os = leaf_md_with annot_fix cfg pl g' p os.
+Proof.
+  intros cfg pl g g' p os H. unfold obj_sim in H.
+  destruct pl; cbn [leaf_md_with]; try reflexivity.
+  - now rewrite (default_md_strip cfg g), (default_md_strip cfg g'), H.
+  - unfold deployment_md_with. rewrite (default_md_strip cfg g), (default_md_strip cfg g'), H.
+    change (calc_prio cfg [g] p "inference") with (calc_prio cfg [strip_obj g] p "inference").
+    change (calc_prio cfg [g'] p "inference") with (calc_prio cfg [strip_obj g'] p "inference").
+    now rewrite H.
+  - unfold job_md_with. rewrite (default_md_strip cfg g), (default_md_strip cfg g'), H.
+    change (o_uid g) with (o_uid (strip_obj g)). change (o_uid g') with (o_uid (strip_obj g')). now rewrite H.
+  - destruct (is_spark_pod p); [reflexivity|].
+    now rewrite (default_md_strip cfg g), (default_md_strip cfg g'), H.
+Qed.
+
+(** the metadata of a pod that has an owner reference does not depend on its pod-group annotation *)
+Lemma full_md_indep_all : forall cfg cl p a a', p_owners p <> [] -> full_md cfg cl p a = full_md cfg cl p a'.
+Proof.
+  intros cfg cl p a a' Hp. unfold full_md, full_md_with, reconcile_md_with.
+  rewrite !not_orphan_with_owners by assumption.
+  pose proof (grouping_sim_all cfg cl p a a') as G.
+  destruct (grouping cfg cl p a) as [pl g os u| | |]; destruct (grouping cfg cl p a') as [pl' g' os' u'| | |];
+    cbn in G; try contradiction; try reflexivity.
+  destruct G as [<- [Hg [<- _]]]. now rewrite (leaf_md_sim cfg pl g g' p os Hg).
+Qed.
+
+(** every pod settles *)
+Theorem all_settle : forall cfg cl p, settles cfg cl p.
+Proof.
+  intros cfg cl p. destruct (p_owners p) as [|r rs] eqn:E.
+  - now apply settles_bare.
+  - intros a m H. left. rewrite <- H. apply full_md_indep_all. rewrite E. discriminate.
 Qed.
 
 (** siblings of a shared kind form a coherent set *)
-Lemma siblings_coherent : forall cfg cl ps p0 a0 g os,
+Lemma siblings_coherent_with : forall af cfg cl ps p0 a0 g os,
     NoDup (map p_name ps) ->
     (forall p, In p ps -> same_template cfg p0 p) ->
     grouping cfg cl p0 a0 = GOk PDefault g os false ->
-    coherent cfg cl ps.
+    coherent_with af cfg cl ps.
 Proof.
-  intros cfg cl ps p0 a0 g os Hnd Ht G. constructor.
+  intros af cfg cl ps p0 a0 g os Hnd Ht G. constructor.
   - intros p q Hp Hq Hn. clear - Hnd Hp Hq Hn.
     induction ps as [|x ps IH]; [contradiction|].
     cbn in Hnd. inversion Hnd as [|? ? Hnotin Hnd']; subst.
@@ -945,50 +1197,221 @@ Proof.
     + exfalso. apply Hnotin. rewrite Hn. now apply in_map.
     + exfalso. apply Hnotin. rewrite <- Hn. now apply in_map.
   - intros p Hp.
-    apply (settles_not_pod_grouped cfg cl p a0 PDefault g os).
+    apply (settles_not_pod_grouped af cfg cl p a0 PDefault g os).
     apply (grouping_indep cfg cl p0 p a0 a0); [exact (proj1 (Ht p Hp))|exact G].
   - intros p q Hp Hq a b m m' Em Em' _.
-    destruct (siblings_same_group cfg cl p0 p a0 a g os (Ht p Hp) G) as [E1 _].
-    destruct (siblings_same_group cfg cl p0 q a0 b g os (Ht q Hq) G) as [E2 _].
+    destruct (siblings_same_group_with af cfg cl p0 p a0 a g os (Ht p Hp) G) as [E1 _].
+    destruct (siblings_same_group_with af cfg cl p0 q a0 b g os (Ht q Hq) G) as [E2 _].
     congruence.
 Qed.
 
-(** (2) for siblings of a shared kind *)
-Theorem order_independent_siblings : forall sg eq cfg cl ps p0 a0 g os es1 es2 s,
+(** for the code as it is, coherence needs no settling hypothesis *)
+Record coherent (cfg : config) (cl : list obj) (ps : list pod) : Prop := {
+  coh_names : forall p q, In p ps -> In q ps -> p_name p = p_name q -> p = q;
+  coh_agree : forall p q, In p ps -> In q ps -> agree_on_names cfg cl p q
+}.
+
+Lemma coherent_is_with : forall cfg cl ps, coherent cfg cl ps -> coherent_with annot_fix cfg cl ps.
+Proof.
+  intros cfg cl ps [Hn Ha]. constructor; [exact Hn| |exact Ha]. intros p _. apply all_settle.
+Qed.
+
+Lemma siblings_coherent : forall cfg cl ps p0 a0 g os,
+    NoDup (map p_name ps) ->
+    (forall p, In p ps -> same_template cfg p0 p) ->
+    grouping cfg cl p0 a0 = GOk PDefault g os false ->
+    coherent cfg cl ps.
+Proof.
+  intros cfg cl ps p0 a0 g os Hnd Ht G.
+  destruct (siblings_coherent_with annot_fix cfg cl ps p0 a0 g os Hnd Ht G) as [Hn _ Ha].
+  constructor; assumption.
+Qed.
+
+(** (2) for the code as it is *)
+Theorem order_independent_coherent : forall pf sg eq cfg cl ps es1 es2 s,
+    coherent cfg cl ps ->
+    incl es1 ps -> incl es2 ps -> incl es1 es2 -> incl es2 es1 ->
+    st_equiv (run_with annot_fix pf sg eq cfg cl (map EvReconcile es1) s)
+             (run_with annot_fix pf sg eq cfg cl (map EvReconcile es2) s).
+Proof.
+  intros pf sg eq cfg cl ps es1 es2 s H. apply order_independent_coherent_with. now apply coherent_is_with.
+Qed.
+
+(** (2) for siblings of a shared kind, in every version *)
+Theorem order_independent_siblings : forall af pf sg eq cfg cl ps p0 a0 g os es1 es2 s,
     NoDup (map p_name ps) ->
     (forall p, In p ps -> same_template cfg p0 p) ->
     grouping cfg cl p0 a0 = GOk PDefault g os false ->
     incl es1 ps -> incl es2 ps -> incl es1 es2 -> incl es2 es1 ->
-    st_equiv (run_with sg eq cfg cl (map EvReconcile es1) s) (run_with sg eq cfg cl (map EvReconcile es2) s).
+    st_equiv (run_with af pf sg eq cfg cl (map EvReconcile es1) s) (run_with af pf sg eq cfg cl (map EvReconcile es2) s).
 Proof.
-  intros sg eq cfg cl ps p0 a0 g os es1 es2 s Hnd Ht G I1 I2 I12 I21.
-  apply (order_independent_coherent sg eq cfg cl ps es1 es2 s); try assumption.
-  apply (siblings_coherent cfg cl ps p0 a0 g os); assumption.
+  intros af pf sg eq cfg cl ps p0 a0 g os es1 es2 s Hnd Ht G I1 I2 I12 I21.
+  apply (order_independent_coherent_with af pf sg eq cfg cl ps es1 es2 s); try assumption.
+  apply (siblings_coherent_with af cfg cl ps p0 a0 g os); assumption.
+Qed.
+
+(** reconciling a pod twice leaves the state the first reconcile produced (no coherence needed) *)
+Definition order_independent_unrestricted (af pf sg : bool) (eq : pg -> pg -> bool) : Prop :=
+  forall cfg cl p s,
+    st_equiv (run_with af pf sg eq cfg cl (map EvReconcile [p]) s) (run_with af pf sg eq cfg cl (map EvReconcile [p; p]) s).
+
+Theorem reconcile_twice_same_state : forall pf sg eq, order_independent_unrestricted annot_fix pf sg eq.
+Proof.
+  intros pf sg eq cfg cl p s. cbn. apply st_equiv_sym.
+  apply (rec_step_idem annot_fix pf sg eq cfg cl p s). apply all_settle.
 Qed.
 
 (** * (3) idempotence of the handler since 9775a95 *)
 Definition no_stale_subgroup (p : pod) : Prop :=
   match lookup subgroup_label_key (p_labels p) with Some v => v | None => "" end = "".
 
-Definition idempotent_statement (sg : bool) (eq : pg -> pg -> bool) : Prop :=
-  forall cfg cl p s, settles cfg cl p -> no_stale_subgroup p ->
-                     snd (reconcile_with sg eq cfg cl p (rec_step sg eq cfg cl p s)) = 0%Z.
+(** the statement: from any state, a second reconcile of any pod issues no mutating call *)
+Definition idempotent_statement (af pf sg : bool) (eq : pg -> pg -> bool) : Prop :=
+  forall cfg cl p s, snd (reconcile_with af pf sg eq cfg cl p (rec_step af pf sg eq cfg cl p s)) = 0%Z.
 
-Theorem idempotent_v1 : idempotent_statement true pg_equal_v1.
+(** ... and what held of it before the repairs 3f1c7d2 and 8227120 *)
+Definition idempotent_partial_statement (af pf sg : bool) (eq : pg -> pg -> bool) : Prop :=
+  forall cfg cl p s, settles_with af cfg cl p -> no_stale_subgroup p ->
+                     snd (reconcile_with af pf sg eq cfg cl p (rec_step af pf sg eq cfg cl p s)) = 0%Z.
+
+Lemma no_patch_after_assignment : forall pf m p,
+    pf = true \/ no_stale_subgroup p -> needs_patch_with pf m p (Some (m_name m)) = false.
 Proof.
-  intros cfg cl p s Hset Hsg.
-  destruct (full_md cfg cl p (get_asg (p_name p) s)) as [m|] eqn:E.
-  - destruct (rec_step_some true pg_equal_v1 cfg cl p s m E) as [P1 [A1 _]].
-    set (s1 := rec_step true pg_equal_v1 cfg cl p s) in *.
+  intros pf m p H. unfold needs_patch_with, cur_annots, expected_subgroup.
+  rewrite lookup_aset_same, String.eqb_refl. destruct H as [->|H].
+  - reflexivity.
+  - unfold no_stale_subgroup in H. rewrite H. cbn. now rewrite orb_true_r.
+Qed.
+
+Lemma idempotent_gen : forall af pf cfg cl p s,
+    settles_with af cfg cl p -> pf = true \/ no_stale_subgroup p ->
+    snd (reconcile_with af pf true pg_equal_v1 cfg cl p (rec_step af pf true pg_equal_v1 cfg cl p s)) = 0%Z.
+Proof.
+  intros af pf cfg cl p s Hset Hsg.
+  destruct (full_md_with af cfg cl p (get_asg (p_name p) s)) as [m|] eqn:E.
+  - destruct (rec_step_some af pf true pg_equal_v1 cfg cl p s m E) as [P1 [A1 _]].
+    set (s1 := rec_step af pf true pg_equal_v1 cfg cl p s) in *.
     assert (get_asg (p_name p) s1 = Some (m_name m)) as Ha1 by now rewrite A1, String.eqb_refl.
     destruct (Hset _ _ E) as [E2|E2]; rewrite <- Ha1 in E2.
-    + destruct (rec_step_some true pg_equal_v1 cfg cl p s1 m E2) as [_ [_ W]].
+    + destruct (rec_step_some af pf true pg_equal_v1 cfg cl p s1 m E2) as [_ [_ W]].
       rewrite W, P1, String.eqb_refl, apply_slot_v1_second_zero, Ha1.
-      unfold needs_patch, cur_annots, expected_subgroup. rewrite lookup_aset_same, String.eqb_refl.
-      unfold no_stale_subgroup in Hsg. rewrite Hsg. reflexivity.
-    + now rewrite (rec_step_none _ _ _ _ _ _ E2).
-  - unfold rec_step. rewrite (rec_step_none _ _ _ _ _ _ E). cbn [fst]. now rewrite (rec_step_none _ _ _ _ _ _ E).
+      now rewrite no_patch_after_assignment.
+    + now rewrite (rec_step_none _ _ _ _ _ _ _ _ E2).
+  - unfold rec_step. rewrite (rec_step_none _ _ _ _ _ _ _ _ E). cbn [fst]. now rewrite (rec_step_none _ _ _ _ _ _ _ _ E).
 Qed.
+
+(** the code as it is: no hypothesis on the pod, the cluster, the configuration or the state *)
+Theorem idempotent_v1 : idempotent_statement annot_fix patch_fix true pg_equal_v1.
+Proof. intros cfg cl p s. apply idempotent_gen; [apply all_settle|now left]. Qed.
+
+(** every combination of the two later repairs, under the two hypotheses they made superfluous *)
+Theorem idempotent_partial : forall af pf, idempotent_partial_statement af pf true pg_equal_v1.
+Proof. intros af pf cfg cl p s Hset Hsg. apply idempotent_gen; [assumption|now right]. Qed.
+
+(** ... with reconciles of other pods of a coherent set in between: once [p] was reconciled, every later
+    reconcile of [p] is silent, whatever reconciles of pods of the set happened since *)
+Section Interleaved.
+  Variables (af pf : bool) (cfg : config) (cl : list obj) (ps : list pod) (p : pod).
+  Hypothesis coh : coherent_with af cfg cl ps.
+  Hypothesis p_in : In p ps.
+  Let rs := rec_step af pf true pg_equal_v1 cfg cl.
+
+  Lemma other_pod_other_name : forall q, In q ps -> q <> p -> String.eqb (p_name p) (p_name q) = false.
+  Proof.
+    intros q Hq Hne. destruct (String.eqb_spec (p_name p) (p_name q)) as [E|E]; [|reflexivity].
+    elim Hne. symmetry. now apply (cohw_names _ _ _ _ coh).
+  Qed.
+
+  (** case 1: [p] is skipped in the current state — it stays skipped *)
+  Lemma skipped_stays : forall es s,
+      incl es ps -> full_md_with af cfg cl p (get_asg (p_name p) s) = None ->
+      get_asg (p_name p) (runs rs es s) = get_asg (p_name p) s.
+  Proof.
+    induction es as [|q es IH]; intros s Hes Hn; [reflexivity|]. cbn [runs fold_left].
+    assert (In q ps) as Hq by (apply Hes; now left).
+    assert (incl es ps) as Hes' by (intros x Hx; apply Hes; now right).
+    assert (get_asg (p_name p) (rs q s) = get_asg (p_name p) s) as Hstep.
+    { destruct (full_md_with af cfg cl q (get_asg (p_name q) s)) as [mq|] eqn:Eq.
+      - destruct (rec_step_some af pf true pg_equal_v1 cfg cl q s mq Eq) as [_ [A _]]. unfold rs. rewrite A.
+        destruct (String.eqb_spec (p_name p) (p_name q)) as [En|_]; [|reflexivity].
+        assert (p = q) as <- by now apply (cohw_names _ _ _ _ coh). congruence.
+      - unfold rs, rec_step. now rewrite (rec_step_none _ _ _ _ _ _ _ _ Eq). }
+    fold (runs rs es (rs q s)). rewrite IH; [exact Hstep|exact Hes'|now rewrite Hstep].
+  Qed.
+
+  (** case 2: [p] was assigned to the group of [m] and the slot holds what ApplyToCluster left there *)
+  Definition assigned (m : metadata) (s : state) : Prop :=
+    get_asg (p_name p) s = Some (m_name m)
+    /\ exists cur, get_pg (m_name m) s = Some (fst (apply_slot_with true pg_equal_v1 cfg m cur)).
+
+  Lemma assigned_step : forall a0 m q s,
+      full_md_with af cfg cl p a0 = Some m -> In q ps -> assigned m s -> assigned m (rs q s).
+  Proof.
+    intros a0 m q s Em Hq [Ha [cur Hs]].
+    destruct (full_md_with af cfg cl q (get_asg (p_name q) s)) as [mq|] eqn:Eq.
+    - destruct (rec_step_some af pf true pg_equal_v1 cfg cl q s mq Eq) as [P [A _]]. unfold rs. split.
+      + rewrite A. destruct (String.eqb_spec (p_name p) (p_name q)) as [En|_]; [|exact Ha].
+        assert (p = q) as <- by now apply (cohw_names _ _ _ _ coh).
+        rewrite Ha in Eq. destruct (cohw_settles _ _ _ _ coh p p_in _ _ Em) as [E2|E2]; congruence.
+      + rewrite P. destruct (String.eqb_spec (m_name m) (m_name mq)) as [En|_]; [|now exists cur].
+        assert (m = mq) as <- by (apply (cohw_agree _ _ _ _ coh p q p_in Hq _ _ _ _ Em Eq En)).
+        rewrite Hs. eexists. reflexivity.
+    - unfold rs, rec_step. rewrite (rec_step_none _ _ _ _ _ _ _ _ Eq). split; [exact Ha|now exists cur].
+  Qed.
+
+  Lemma assigned_runs : forall a0 m es s,
+      full_md_with af cfg cl p a0 = Some m -> incl es ps -> assigned m s -> assigned m (runs rs es s).
+  Proof.
+    intros a0 m es. induction es as [|q es IH]; intros s Em Hes Hs; [exact Hs|]. cbn [runs fold_left].
+    fold (runs rs es (rs q s)). apply IH; [exact Em|intros x Hx; apply Hes; now right|].
+    apply (assigned_step a0); [exact Em|apply Hes; now left|exact Hs].
+  Qed.
+
+  Lemma assigned_silent : forall a0 m s,
+      pf = true \/ no_stale_subgroup p ->
+      full_md_with af cfg cl p a0 = Some m -> assigned m s ->
+      snd (reconcile_with af pf true pg_equal_v1 cfg cl p s) = 0%Z.
+  Proof.
+    intros a0 m s Hsg Em [Ha [cur Hs]].
+    destruct (cohw_settles _ _ _ _ coh p p_in _ _ Em) as [E2|E2]; rewrite <- Ha in E2.
+    - destruct (rec_step_some af pf true pg_equal_v1 cfg cl p s m E2) as [_ [_ W]].
+      rewrite W, Hs, apply_slot_v1_second_zero, Ha. now rewrite no_patch_after_assignment.
+    - now rewrite (rec_step_none _ _ _ _ _ _ _ _ E2).
+  Qed.
+
+  Theorem idempotent_interleaved_gen : forall es1 es2 s,
+      pf = true \/ no_stale_subgroup p ->
+      incl es2 ps ->
+      snd (reconcile_with af pf true pg_equal_v1 cfg cl p (runs rs es2 (rs p (runs rs es1 s)))) = 0%Z.
+  Proof.
+    intros es1 es2 s Hsg Hes2. set (s0 := runs rs es1 s).
+    destruct (full_md_with af cfg cl p (get_asg (p_name p) s0)) as [m|] eqn:E.
+    - apply (assigned_silent (get_asg (p_name p) s0) m); [exact Hsg|exact E|].
+      apply (assigned_runs (get_asg (p_name p) s0) m _ _ E Hes2).
+      destruct (rec_step_some af pf true pg_equal_v1 cfg cl p s0 m E) as [P [A _]]. unfold rs. split.
+      + now rewrite A, String.eqb_refl.
+      + rewrite P, String.eqb_refl. eexists. reflexivity.
+    - assert (rs p s0 = s0) as -> by (unfold rs, rec_step; now rewrite (rec_step_none _ _ _ _ _ _ _ _ E)).
+      assert (full_md_with af cfg cl p (get_asg (p_name p) (runs rs es2 s0)) = None) as E'
+          by now rewrite skipped_stays.
+      now rewrite (rec_step_none _ _ _ _ _ _ _ _ E').
+  Qed.
+End Interleaved.
+
+Theorem idempotent_interleaved : forall cfg cl ps es p s,
+    coherent cfg cl ps -> incl es ps -> In p es ->
+    snd (reconcile cfg cl p (run cfg cl (map EvReconcile es) s)) = 0%Z.
+Proof.
+  intros cfg cl ps es p s Hc Hes Hp.
+  destruct (in_split _ _ Hp) as [es1 [es2 ->]].
+  unfold run, reconcile. rewrite run_reconciles_is_runs.
+  unfold runs. rewrite fold_left_app. cbn [fold_left].
+  apply (idempotent_interleaved_gen annot_fix patch_fix cfg cl ps p (coherent_is_with _ _ _ Hc)).
+  - apply Hes, in_or_app. right. now left.
+  - now left.
+  - intros x Hx. apply Hes, in_or_app. right. now right.
+Qed.
+
 
 (** * (4) fields owned by other actors *)
 Definition fupd_view (f : foreign_upd) (v : fview) : fview :=
@@ -1026,19 +1449,19 @@ Proof.
   rewrite mget_or_nil. unfold or_nil. destruct (f_nodepool f); reflexivity.
 Qed.
 
-Lemma step_foreign_view : forall sg eq cfg cl e s n g,
+Lemma step_foreign_view : forall af pf sg eq cfg cl e s n g,
     c_queue_key cfg <> c_nodepool_key cfg ->
     get_pg n s = Some g ->
-    exists g', get_pg n (fst (step_with sg eq cfg cl e s)) = Some g'
+    exists g', get_pg n (fst (step_with af pf sg eq cfg cl e s)) = Some g'
                /\ foreign_view cfg g' = foreign_only n [e] (foreign_view cfg g).
 Proof.
-  intros sg eq cfg cl e s n g Hne Hg. destruct e as [p|n' f]; cbn [step_with foreign_only].
-  - destruct (full_md cfg cl p (get_asg (p_name p) s)) as [m|] eqn:E.
-    + destruct (rec_step_some sg eq cfg cl p s m E) as [P1 _]. fold (rec_step sg eq cfg cl p s). rewrite P1.
+  intros af pf sg eq cfg cl e s n g Hne Hg. destruct e as [p|n' f]; cbn [step_with foreign_only].
+  - destruct (full_md_with af cfg cl p (get_asg (p_name p) s)) as [m|] eqn:E.
+    + destruct (rec_step_some af pf sg eq cfg cl p s m E) as [P1 _]. fold (rec_step af pf sg eq cfg cl p s). rewrite P1.
       destruct (String.eqb_spec n (m_name m)) as [->|Hn].
       * rewrite Hg. eexists. split; [reflexivity|]. apply apply_slot_foreign_view.
       * exists g. auto.
-    + rewrite (rec_step_none _ _ _ _ _ _ E). exists g. auto.
+    + rewrite (rec_step_none _ _ _ _ _ _ _ _ E). exists g. auto.
   - destruct (get_pg n' s) as [g0|] eqn:E0; cbn [fst].
     + unfold get_pg at 1. cbn [st_pgs]. rewrite lookup_aset. destruct (String.eqb_spec n n') as [->|Hn].
       * rewrite String.eqb_refl. eexists. split; [reflexivity|].
@@ -1047,47 +1470,47 @@ Proof.
     + destruct (String.eqb_spec n' n) as [->|_]; [congruence|]. exists g. auto.
 Qed.
 
-Theorem foreign_fields_kept : forall sg eq cfg cl evs s n g,
+Theorem foreign_fields_kept : forall af pf sg eq cfg cl evs s n g,
     c_queue_key cfg <> c_nodepool_key cfg ->
     get_pg n s = Some g ->
-    exists g', get_pg n (run_with sg eq cfg cl evs s) = Some g'
+    exists g', get_pg n (run_with af pf sg eq cfg cl evs s) = Some g'
                /\ foreign_view cfg g' = foreign_only n evs (foreign_view cfg g).
 Proof.
-  intros sg eq cfg cl evs. induction evs as [|e evs IH]; intros s n g Hne Hg.
+  intros af pf sg eq cfg cl evs. induction evs as [|e evs IH]; intros s n g Hne Hg.
   - exists g. auto.
-  - destruct (step_foreign_view sg eq cfg cl e s n g Hne Hg) as [g1 [Hg1 Hv1]].
+  - destruct (step_foreign_view af pf sg eq cfg cl e s n g Hne Hg) as [g1 [Hg1 Hv1]].
     destruct (IH _ n g1 Hne Hg1) as [g' [Hg' Hv']].
     exists g'. split; [exact Hg'|]. rewrite Hv', Hv1.
     destruct e as [p|n' f]; reflexivity.
 Qed.
 
 (** a reconcile keeps a queue label that is present *)
-Theorem queue_label_kept : forall sg eq cfg cl p s n g v,
+Theorem queue_label_kept : forall af pf sg eq cfg cl p s n g v,
     get_pg n s = Some g -> mget (c_queue_key cfg) (pg_labels g) = Some v ->
-    exists g', get_pg n (rec_step sg eq cfg cl p s) = Some g' /\ mget (c_queue_key cfg) (pg_labels g') = Some v.
+    exists g', get_pg n (rec_step af pf sg eq cfg cl p s) = Some g' /\ mget (c_queue_key cfg) (pg_labels g') = Some v.
 Proof.
-  intros sg eq cfg cl p s n g v Hg Hv.
-  destruct (full_md cfg cl p (get_asg (p_name p) s)) as [m|] eqn:E.
-  - destruct (rec_step_some sg eq cfg cl p s m E) as [P1 _]. rewrite P1.
+  intros af pf sg eq cfg cl p s n g v Hg Hv.
+  destruct (full_md_with af cfg cl p (get_asg (p_name p) s)) as [m|] eqn:E.
+  - destruct (rec_step_some af pf sg eq cfg cl p s m E) as [P1 _]. rewrite P1.
     destruct (String.eqb_spec n (m_name m)) as [->|Hn].
     + rewrite Hg. eexists. split; [reflexivity|]. now apply apply_slot_queue_label.
     + exists g. auto.
-  - unfold rec_step. rewrite (rec_step_none _ _ _ _ _ _ E). exists g. auto.
+  - unfold rec_step. rewrite (rec_step_none _ _ _ _ _ _ _ _ E). exists g. auto.
 Qed.
 
 (** a reconcile touches no PodGroup other than the pod's own *)
-Theorem other_groups_untouched : forall sg eq cfg cl p s n,
-    (forall m, full_md cfg cl p (get_asg (p_name p) s) = Some m -> m_name m <> n) ->
-    get_pg n (rec_step sg eq cfg cl p s) = get_pg n s.
+Theorem other_groups_untouched : forall af pf sg eq cfg cl p s n,
+    (forall m, full_md_with af cfg cl p (get_asg (p_name p) s) = Some m -> m_name m <> n) ->
+    get_pg n (rec_step af pf sg eq cfg cl p s) = get_pg n s.
 Proof.
-  intros sg eq cfg cl p s n H.
-  destruct (full_md cfg cl p (get_asg (p_name p) s)) as [m|] eqn:E.
-  - destruct (rec_step_some sg eq cfg cl p s m E) as [P1 _]. rewrite P1.
+  intros af pf sg eq cfg cl p s n H.
+  destruct (full_md_with af cfg cl p (get_asg (p_name p) s)) as [m|] eqn:E.
+  - destruct (rec_step_some af pf sg eq cfg cl p s m E) as [P1 _]. rewrite P1.
     destruct (String.eqb_spec n (m_name m)) as [->|Hn]; [|reflexivity]. now elim (H m).
-  - unfold rec_step. now rewrite (rec_step_none _ _ _ _ _ _ E).
+  - unfold rec_step. now rewrite (rec_step_none _ _ _ _ _ _ _ _ E).
 Qed.
 
-(** * Statements that the faithful model refutes, and concrete instances *)
+(** * Concrete instances: the history of the findings, and non-vacuity *)
 Definition ex_cfg : config :=
   {| c_queue_key := "kai.scheduler/queue"; c_nodepool_key := "kai.scheduler/node-pool";
      c_prio_classes := ["train"]; c_defaults := CmNone; c_forbidden := [] |}.
@@ -1102,35 +1525,43 @@ Definition ex_pod (i : string) : pod :=
 Lemma ex_grouping : forall i a, grouping ex_cfg [ex_sts] (ex_pod i) a = GOk PDefault ex_sts [ex_sts] false.
 Proof. intros i a. reflexivity. Qed.
 
-Lemma ex_settles : forall i, settles ex_cfg [ex_sts] (ex_pod i).
-Proof. intros i. eapply settles_not_pod_grouped. apply (ex_grouping i None). Qed.
+Lemma ex_settles : forall af i, settles_with af ex_cfg [ex_sts] (ex_pod i).
+Proof. intros af i. eapply settles_not_pod_grouped. apply (ex_grouping i None). Qed.
 
-(** the handler before 9775a95: the second reconcile of a StatefulSet pod issues an Update *)
-Lemma ex_second_reconcile_writes_v0 :
-  snd (reconcile_with ignore_sg_v0 pg_equal_v0 ex_cfg [ex_sts] (ex_pod "0")
-         (rec_step ignore_sg_v0 pg_equal_v0 ex_cfg [ex_sts] (ex_pod "0") empty_state)) = 1%Z.
-Proof. vm_compute. reflexivity. Qed.
+(** the state after [n] reconciles of one pod from the empty store *)
+Definition after (n : nat) (cfg : config) (cl : list obj) (p : pod) : state :=
+  Nat.iter n (fun s => fst (reconcile cfg cl p s)) empty_state.
 
-Lemma idempotent_v0_refuted : ~ idempotent_statement ignore_sg_v0 pg_equal_v0.
+Lemma quiet_from_second_on : forall cfg cl p n, snd (reconcile cfg cl p (after (S n) cfg cl p)) = 0%Z.
+Proof. intros cfg cl p n. exact (idempotent_v1 cfg cl p (after n cfg cl p)). Qed.
+
+(** ** 9775a95: the handler before it issued an Update on every reconcile *)
+Lemma ex_second_reconcile_writes_v0 : forall af pf,
+  snd (reconcile_with af pf ignore_sg_v0 pg_equal_v0 ex_cfg [ex_sts] (ex_pod "0")
+         (rec_step af pf ignore_sg_v0 pg_equal_v0 ex_cfg [ex_sts] (ex_pod "0") empty_state)) = 1%Z.
+Proof. intros [] []; vm_compute; reflexivity. Qed.
+
+Lemma idempotent_v0_refuted : forall af pf, ~ idempotent_partial_statement af pf ignore_sg_v0 pg_equal_v0.
 Proof.
-  intros H. specialize (H ex_cfg [ex_sts] (ex_pod "0") empty_state (ex_settles "0") eq_refl).
+  intros af pf H. specialize (H ex_cfg [ex_sts] (ex_pod "0") empty_state (ex_settles af "0") eq_refl).
   rewrite ex_second_reconcile_writes_v0 in H. discriminate.
 Qed.
 
-(** neither half of the repair suffices alone: with the sub-group step only, an owner without
+(** neither half of that repair suffices alone: with the sub-group step only, an owner without
     labels still gets an Update per reconcile *)
 Definition ex_bare_sts : obj :=
   {| o_gvk := mk_gvk "apps" "v1" "StatefulSet"; o_name := "web"; o_uid := "u-sts";
      o_labels := []; o_annots := []; o_owners := []; o_tom := "tom-web" |}.
 Lemma ex_half_repairs_insufficient :
-  snd (reconcile_with true pg_equal_v0 ex_cfg [ex_bare_sts] (ex_pod "0")
-         (rec_step true pg_equal_v0 ex_cfg [ex_bare_sts] (ex_pod "0") empty_state)) = 1%Z
-  /\ snd (reconcile_with false pg_equal_v1 ex_cfg [ex_bare_sts] (ex_pod "0")
-            (rec_step false pg_equal_v1 ex_cfg [ex_bare_sts] (ex_pod "0") empty_state)) = 1%Z.
+  snd (reconcile_with annot_fix patch_fix true pg_equal_v0 ex_cfg [ex_bare_sts] (ex_pod "0")
+         (rec_step annot_fix patch_fix true pg_equal_v0 ex_cfg [ex_bare_sts] (ex_pod "0") empty_state)) = 1%Z
+  /\ snd (reconcile_with annot_fix patch_fix false pg_equal_v1 ex_cfg [ex_bare_sts] (ex_pod "0")
+            (rec_step annot_fix patch_fix false pg_equal_v1 ex_cfg [ex_bare_sts] (ex_pod "0") empty_state)) = 1%Z.
 Proof. split; vm_compute; reflexivity. Qed.
 
-(** a pod owned directly by a skip-top-owner kind is its own grouping object: its pod-group
-    annotation, once written, is copied into the PodGroup by the next reconcile *)
+(** ** 8227120: a pod that is its own grouping object. Two ways to be one: the direct owner is a
+    skip-top-owner kind (argo Workflow), or the grouper may not GET the direct owner. Before the repair the
+    pod-group annotation written by the first reconcile was copied into the PodGroup by the second. *)
 Definition ex_wf : obj :=
   {| o_gvk := mk_gvk "argoproj.io" "v1alpha1" "Workflow"; o_name := "wf"; o_uid := "u-wf";
      o_labels := []; o_annots := []; o_owners := []; o_tom := "tom-wf" |}.
@@ -1138,17 +1569,25 @@ Definition ex_step : pod :=
   {| p_name := "step-0"; p_uid := "u-s0"; p_labels := []; p_annots := []; p_prio := "";
      p_owners := [{| r_gvk := mk_gvk "argoproj.io" "v1alpha1" "Workflow"; r_name := "wf"; r_uid := "u-wf" |}];
      p_tom := "tom-step" |}.
+Definition ex_cfg_forbidden : config :=
+  {| c_queue_key := "kai.scheduler/queue"; c_nodepool_key := "kai.scheduler/node-pool";
+     c_prio_classes := ["train"]; c_defaults := CmNone; c_forbidden := ["StatefulSet"] |}.
 
 Lemma ex_step_grouping :
   grouping ex_cfg [ex_wf] ex_step None = GOk PPodJob (propagate (pod_obj ex_step None) ex_wf) [] true.
 Proof. reflexivity. Qed.
 
-Definition order_independent_unrestricted (sg : bool) (eq : pg -> pg -> bool) : Prop :=
-  forall cfg cl p s,
-    st_equiv (run_with sg eq cfg cl (map EvReconcile [p]) s) (run_with sg eq cfg cl (map EvReconcile [p; p]) s).
+Lemma ex_forbidden_grouping :
+  grouping ex_cfg_forbidden [ex_sts] (ex_pod "0") None = GOk PPodJob (pod_obj (ex_pod "0") None) [] true.
+Proof. reflexivity. Qed.
 
-Lemma order_independent_unrestricted_refuted :
-  ~ order_independent_unrestricted ignore_sg_v0 pg_equal_v0 /\ ~ order_independent_unrestricted ignore_sg_v1 pg_equal_v1.
+(** the PodGroup's copy of the pod-group-name annotation after [s] *)
+Definition pg_self_annot (n : string) (s : state) : option (option string) :=
+  option_map (fun g => mget pg_annotation_key (pg_annots g)) (get_pg n s).
+
+Lemma order_independent_unrestricted_before_repair :
+  ~ order_independent_unrestricted annot_fix_v0 patch_fix ignore_sg_v0 pg_equal_v0
+  /\ ~ order_independent_unrestricted annot_fix_v0 patch_fix ignore_sg_v1 pg_equal_v1.
 Proof.
   split; intros H; destruct (H ex_cfg [ex_wf] ex_step empty_state) as [Hp _];
     specialize (Hp "pg-step-0-u-s0");
@@ -1156,33 +1595,76 @@ Proof.
     vm_compute in Hp; discriminate.
 Qed.
 
-Lemma ex_step_not_settled : ~ settles ex_cfg [ex_wf] ex_step.
+Lemma ex_step_not_settled_before_repair : ~ settles_with annot_fix_v0 ex_cfg [ex_wf] ex_step.
 Proof.
   intros H. destruct (H None _ eq_refl) as [E|E]; vm_compute in E; discriminate.
 Qed.
 
-(** such a pod's second reconcile still writes after the repair (its third does not) *)
-Lemma ex_step_second_reconcile_writes :
-  snd (reconcile_with true pg_equal_v1 ex_cfg [ex_wf] ex_step
-         (rec_step true pg_equal_v1 ex_cfg [ex_wf] ex_step empty_state)) = 1%Z
-  /\ snd (reconcile_with true pg_equal_v1 ex_cfg [ex_wf] ex_step
-            (rec_step true pg_equal_v1 ex_cfg [ex_wf] ex_step
-               (rec_step true pg_equal_v1 ex_cfg [ex_wf] ex_step empty_state))) = 0%Z.
-Proof. split; vm_compute; reflexivity. Qed.
+(** before the repair: the second reconcile writes (the third does not), for both kinds of such pods *)
+Lemma annotation_feedback_before_repair :
+  ~ settles_with annot_fix_v0 ex_cfg [ex_wf] ex_step
+  /\ snd (reconcile_with annot_fix_v0 patch_fix true pg_equal_v1 ex_cfg [ex_wf] ex_step
+            (rec_step annot_fix_v0 patch_fix true pg_equal_v1 ex_cfg [ex_wf] ex_step empty_state)) = 1%Z
+  /\ snd (reconcile_with annot_fix_v0 patch_fix true pg_equal_v1 ex_cfg [ex_wf] ex_step
+            (rec_step annot_fix_v0 patch_fix true pg_equal_v1 ex_cfg [ex_wf] ex_step
+               (rec_step annot_fix_v0 patch_fix true pg_equal_v1 ex_cfg [ex_wf] ex_step empty_state))) = 0%Z
+  /\ pg_self_annot "pg-step-0-u-s0"
+       (rec_step annot_fix_v0 patch_fix true pg_equal_v1 ex_cfg [ex_wf] ex_step
+          (rec_step annot_fix_v0 patch_fix true pg_equal_v1 ex_cfg [ex_wf] ex_step empty_state))
+     = Some (Some "pg-step-0-u-s0")
+  /\ snd (reconcile_with annot_fix_v0 patch_fix true pg_equal_v1 ex_cfg_forbidden [ex_sts] (ex_pod "0")
+            (rec_step annot_fix_v0 patch_fix true pg_equal_v1 ex_cfg_forbidden [ex_sts] (ex_pod "0") empty_state)) = 1%Z
+  /\ ~ idempotent_statement annot_fix_v0 patch_fix ignore_sg pg_equal.
+Proof.
+  split; [exact ex_step_not_settled_before_repair|].
+  split; [vm_compute; reflexivity|]. split; [vm_compute; reflexivity|].
+  split; [vm_compute; reflexivity|]. split; [vm_compute; reflexivity|].
+  intros H. specialize (H ex_cfg [ex_wf] ex_step empty_state). vm_compute in H. discriminate.
+Qed.
 
-(** a pod with a stale sub-group label is patched (with an empty patch) on every reconcile *)
+(** now: the first reconcile creates the PodGroup and patches the pod, every later one is silent, and the
+    PodGroup never receives the annotation *)
+Lemma annotation_feedback_now_quiet :
+  snd (reconcile ex_cfg [ex_wf] ex_step empty_state) = 2%Z
+  /\ (forall n, snd (reconcile ex_cfg [ex_wf] ex_step (after (S n) ex_cfg [ex_wf] ex_step)) = 0%Z)
+  /\ pg_self_annot "pg-step-0-u-s0" (after 2 ex_cfg [ex_wf] ex_step) = Some None
+  /\ snd (reconcile ex_cfg_forbidden [ex_sts] (ex_pod "0") empty_state) = 2%Z
+  /\ (forall n, snd (reconcile ex_cfg_forbidden [ex_sts] (ex_pod "0") (after (S n) ex_cfg_forbidden [ex_sts] (ex_pod "0"))) = 0%Z)
+  /\ pg_self_annot "pg-web-0-u-p0" (after 2 ex_cfg_forbidden [ex_sts] (ex_pod "0")) = Some None.
+Proof.
+  split; [vm_compute; reflexivity|]. split; [intros n; apply quiet_from_second_on|].
+  split; [vm_compute; reflexivity|]. split; [vm_compute; reflexivity|].
+  split; [intros n; apply quiet_from_second_on|vm_compute; reflexivity].
+Qed.
+
+(** ** 3f1c7d2: a pod with a stale sub-group label was patched (with an empty patch) on every reconcile *)
 Definition ex_stale : pod :=
   {| p_name := "web-9"; p_uid := "u-p9"; p_labels := [("kai.scheduler/subgroup-name", "gone")]; p_annots := [];
      p_prio := ""; p_owners := [{| r_gvk := mk_gvk "apps" "v1" "StatefulSet"; r_name := "web"; r_uid := "u-sts" |}];
      p_tom := "tom-pod" |}.
-Lemma ex_stale_repatched :
+
+Lemma stale_subgroup_before_repair :
   settles ex_cfg [ex_sts] ex_stale /\ ~ no_stale_subgroup ex_stale
-  /\ snd (reconcile_with true pg_equal_v1 ex_cfg [ex_sts] ex_stale
-            (rec_step true pg_equal_v1 ex_cfg [ex_sts] ex_stale
-               (rec_step true pg_equal_v1 ex_cfg [ex_sts] ex_stale empty_state))) = 1%Z.
+  /\ snd (reconcile_with annot_fix patch_fix_v0 true pg_equal_v1 ex_cfg [ex_sts] ex_stale
+            (rec_step annot_fix patch_fix_v0 true pg_equal_v1 ex_cfg [ex_sts] ex_stale empty_state)) = 1%Z
+  /\ snd (reconcile_with annot_fix patch_fix_v0 true pg_equal_v1 ex_cfg [ex_sts] ex_stale
+            (rec_step annot_fix patch_fix_v0 true pg_equal_v1 ex_cfg [ex_sts] ex_stale
+               (rec_step annot_fix patch_fix_v0 true pg_equal_v1 ex_cfg [ex_sts] ex_stale empty_state))) = 1%Z
+  /\ ~ idempotent_statement annot_fix patch_fix_v0 ignore_sg pg_equal.
 Proof.
-  split; [apply (settles_not_pod_grouped ex_cfg [ex_sts] ex_stale None PDefault ex_sts [ex_sts]); reflexivity|].
-  split; [discriminate|vm_compute; reflexivity].
+  split; [apply all_settle|]. split; [discriminate|].
+  split; [vm_compute; reflexivity|]. split; [vm_compute; reflexivity|].
+  intros H. specialize (H ex_cfg [ex_sts] ex_stale empty_state). vm_compute in H. discriminate.
+Qed.
+
+Lemma stale_subgroup_now_quiet :
+  ~ no_stale_subgroup ex_stale
+  /\ snd (reconcile ex_cfg [ex_sts] ex_stale empty_state) = 2%Z
+  /\ (forall n, snd (reconcile ex_cfg [ex_sts] ex_stale (after (S n) ex_cfg [ex_sts] ex_stale)) = 0%Z)
+  /\ lookup subgroup_label_key (p_labels ex_stale) = Some "gone".
+Proof.
+  split; [discriminate|]. split; [vm_compute; reflexivity|].
+  split; [intros n; apply quiet_from_second_on|reflexivity].
 Qed.
 
 (** non-vacuity: two StatefulSet pods meet every hypothesis used above *)
@@ -1190,6 +1672,7 @@ Lemma ex_nonvacuous :
   same_template ex_cfg (ex_pod "0") (ex_pod "1")
   /\ NoDup (map p_name [ex_pod "0"; ex_pod "1"])
   /\ coherent ex_cfg [ex_sts] [ex_pod "0"; ex_pod "1"]
+  /\ (forall af, coherent_with af ex_cfg [ex_sts] [ex_pod "0"; ex_pod "1"])
   /\ no_stale_subgroup (ex_pod "0")
   /\ c_queue_key ex_cfg <> c_nodepool_key ex_cfg
   /\ let s := run ex_cfg [ex_sts] [EvReconcile (ex_pod "1"); EvReconcile (ex_pod "0")] empty_state in
@@ -1202,10 +1685,12 @@ Proof.
     repeat (destruct Hk as [<-|Hk]; [reflexivity|]). contradiction. }
   assert (NoDup (map p_name [ex_pod "0"; ex_pod "1"])) as N.
   { cbn. constructor; [cbn; intros [H|[]]; discriminate|]. constructor; [intros []|constructor]. }
+  assert (forall p, In p [ex_pod "0"; ex_pod "1"] -> same_template ex_cfg (ex_pod "0") p) as Ts.
+  { intros p [<-|[<-|[]]]; [apply same_template_refl|exact T]. }
   split; [exact T|]. split; [exact N|]. split.
-  { apply (siblings_coherent ex_cfg [ex_sts] _ (ex_pod "0") None ex_sts [ex_sts] N).
-    - intros p [<-|[<-|[]]]; [apply same_template_refl|exact T].
-    - apply ex_grouping. }
+  { apply (siblings_coherent ex_cfg [ex_sts] _ (ex_pod "0") None ex_sts [ex_sts] N Ts). apply ex_grouping. }
+  split.
+  { intros af. apply (siblings_coherent_with af ex_cfg [ex_sts] _ (ex_pod "0") None ex_sts [ex_sts] N Ts). apply ex_grouping. }
   split; [reflexivity|]. split; [discriminate|].
   cbv zeta. split; [vm_compute; reflexivity|]. split; [vm_compute; reflexivity|].
   eexists. split; [vm_compute; reflexivity|]. repeat split.
